@@ -40,27 +40,27 @@ var sharedTypes = map[string]bool{
 // documentedMutators: exported functions/methods that are documented to modify their receiver (or an
 // argument) and therefore must not run concurrently with queries on the same object. One reason each.
 var documentedMutators = map[string]string{
-	"(*s2.ShapeIndex).Add":        "mutator by contract",
-	"(*s2.ShapeIndex).Remove":     "mutator by contract",
-	"(*s2.ShapeIndex).Reset":      "mutator by contract",
-	"(*s2.Loop).Invert":           "mutator by contract",
-	"(*s2.Loop).Normalize":        "mutator by contract (may invert)",
-	"(*s2.Polygon).Invert":        "mutator by contract",
-	"(*s2.Loop).Decode":           "overwrites the receiver",
-	"(*s2.Polygon).Decode":        "overwrites the receiver",
-	"(*s2.Polyline).Decode":       "overwrites the receiver",
-	"(*s2.CellUnion).Decode":      "overwrites the receiver",
-	"(*s2.CellUnion).Normalize":   "mutator by contract",
-	"(*s2.CellUnion).Denormalize": "mutator by contract",
-	"(*s2.CellUnion).ExpandAtLevel":     "mutator by contract",
-	"(*s2.CellUnion).ExpandByRadius":    "mutator by contract",
-	"(*s2.Polyline).Reverse":      "mutator by contract",
-	"(*s2.CellIndex).Add":         "mutator by contract",
-	"(*s2.CellIndex).AddCellUnion": "mutator by contract",
-	"(*s2.CellIndex).Build":       "mutator by contract (explicit build step, documented as not thread-safe)",
-	"(*s2.PointVector).Decode":    "overwrites the receiver",
-	"(*s2.LaxPolygon).Decode":     "overwrites the receiver",
-	"(*s2.LaxPolyline).Decode":    "overwrites the receiver",
+	"(*s2.ShapeIndex).Add":           "mutator by contract",
+	"(*s2.ShapeIndex).Remove":        "mutator by contract",
+	"(*s2.ShapeIndex).Reset":         "mutator by contract",
+	"(*s2.Loop).Invert":              "mutator by contract",
+	"(*s2.Loop).Normalize":           "mutator by contract (may invert)",
+	"(*s2.Polygon).Invert":           "mutator by contract",
+	"(*s2.Loop).Decode":              "overwrites the receiver",
+	"(*s2.Polygon).Decode":           "overwrites the receiver",
+	"(*s2.Polyline).Decode":          "overwrites the receiver",
+	"(*s2.CellUnion).Decode":         "overwrites the receiver",
+	"(*s2.CellUnion).Normalize":      "mutator by contract",
+	"(*s2.CellUnion).Denormalize":    "mutator by contract",
+	"(*s2.CellUnion).ExpandAtLevel":  "mutator by contract",
+	"(*s2.CellUnion).ExpandByRadius": "mutator by contract",
+	"(*s2.Polyline).Reverse":         "mutator by contract",
+	"(*s2.CellIndex).Add":            "mutator by contract",
+	"(*s2.CellIndex).AddCellUnion":   "mutator by contract",
+	"(*s2.CellIndex).Build":          "mutator by contract (explicit build step, documented as not thread-safe)",
+	"(*s2.PointVector).Decode":       "overwrites the receiver",
+	"(*s2.LaxPolygon).Decode":        "overwrites the receiver",
+	"(*s2.LaxPolyline).Decode":       "overwrites the receiver",
 }
 
 // constructorsTakingOwnership: constructors documented to take ownership of (and adjust) the objects passed in.
